@@ -363,6 +363,18 @@ fn c12(em: &mut Em, rng: &mut Rng, thorough: bool) {
     histories(em, rng, if thorough { 3000 } else { 400 }, &g12);
     for s in sts.iter().take(3) { for (fin, sm) in [('h', true), ('l', false)] { for private in [false, true] { for n in [3u32, 4, 5, 6, 7, 20, 25, 96, 160, 192, 224, 800, 1, 2] {
         let t = format!("{}{}", if private { "?" } else { "" }, n); let o = if sm { Op::Sm(vec![n], private) } else { Op::Rm(vec![n], private) }; em.probe_via_parser(s, &o, &csi(&t, fin), true); } } } }
+    // every supported mode from states with every region x DECOM x cursor position (homing is region-relative, and the
+    // order "record the modes, then act" is observable exactly there)
+    for &(c, l) in [(3u32, 3u32), (4, 5)].iter() {
+        let per = (all_margins(l).len() as u64) * 4 * (l as u64) * (c as u64 + 1);
+        let target: u64 = if thorough { 3000 } else { 300 };
+        let sts2 = grid_states(em, rng, c, l, &[1, 2], target.min(per), per, &|sp, r| { sp.scnm = r.chance(1, 4); sp.irm = r.chance(1, 4); });
+        for s in sts2.iter() {
+            for private in [true, false] { for n in [3u32, 5, 6, 25, 4, 7, 20, 96, 160, 192, 800] { if !thorough && !rng.chance(1, 3) { continue; }
+                em.probe(s, &Op::Sm(vec![n], private)); em.probe(s, &Op::Rm(vec![n], private)); } }
+            let (m, p) = gen_modes(rng); em.probe(s, &Op::Rm(m.clone(), p)); em.probe(s, &Op::Sm(m, p));
+        }
+    }
     // the `h`/`l` finals and their private flag as delivered to the listener, also right after sequences that end
     // without a dispatch (CSI ... $ x, CSI aborted by CAN/SUB) or after arbitrary other tokens
     events(em, rng, if thorough { 4000 } else { 500 }, &mut |r| {
@@ -448,7 +460,12 @@ fn c19(em: &mut Em, rng: &mut Rng, thorough: bool) {
         if payload.ends_with('\u{1b}') { continue; }
         let intro = *rng.pick(&["\u{1b}]", "\u{9d}"]); let term = *rng.pick(&["\u{7}", "\u{9c}", "\u{1b}\\"]);
         let code = *rng.pick(&['0', '1', '2', '0', '1', '2', '3', '4', '9', 'a', 'z', 'L', 'l', 'I']);
-        let text = format!("{}{};{}{}", intro, code, payload, term);
+        // state must not leak from one string sequence into the next: precede the sequence under test by 0-2 sequences
+        // with codes that have no effect (their payload is arbitrary)
+        let mut prefix = String::new();
+        if k % 2 == 1 { for _ in 0..(1 + rng.below(2)) { let pl: String = (0..(1 + rng.below(5))).map(|_| *rng.pick(&["p", "q", ";", "/", "\u{e9}", "7"])).collect();
+            prefix.push_str(&format!("{}{};{}{}", rng.pick(&["\u{1b}]", "\u{9d}"]), rng.pick(&['3', '4', '7', '9', 'a', 'z', 'L']), pl, rng.pick(&["\u{7}", "\u{9c}", "\u{1b}\\"]))); } }
+        let text = format!("{}{}{};{}{}", prefix, intro, code, payload, term);
         let mut pre = fork(&base); pre.title = "old-title".into(); pre.icon_name = "old-icon".into();
         let before = snapshot(&pre);
         em.arm(format!("OSC text {:?}", text));
@@ -480,6 +497,8 @@ fn c19(em: &mut Em, rng: &mut Rng, thorough: bool) {
         }
     }
     // event-level correspondence with the recogniser model on the same kind of input
+    events(em, rng, if thorough { 6000 } else { 600 }, &mut |r| { let mut t = String::new(); for _ in 0..(2 + r.below(3)) { let len = r.below(5) as usize; let p: String = (0..len).map(|_| *r.pick(&alpha)).collect();
+        t.push_str(&format!("{}{}{}{}{}", r.pick(&["\u{1b}]", "\u{9d}"]), r.pick(&["0", "1", "2", "7", "4", "52", "x"]), r.pick(&[";", ";", ""]), p, r.pick(&["\u{7}", "\u{9c}", "\u{1b}\\"]))); } t });
     events(em, rng, if thorough { 6000 } else { 600 }, &mut |r| { let len = r.below(6) as usize; let p: String = (0..len).map(|_| *r.pick(&alpha)).collect(); format!("{}{}{}{}{}", r.pick(&["\u{1b}]", "\u{9d}"]), r.pick(&["0", "1", "2", "7", "R", "P", "x"]), r.pick(&[";", "", "x"]), p, r.pick(&["\u{7}", "\u{9c}", "\u{1b}\\", ""])) + *r.pick(&["", "Q", "abcdefgh"]) });
 }
 
